@@ -94,6 +94,8 @@ func symxPanicMode(mode string) {}
 
 func symxIsSymbolic() bool { return false }
 
+func symxNoWitnessReplay() {}
+
 func symxRecord(label string, vals ...any) {
 	s := "rec:" + label + "="
 	for i, v := range vals {
